@@ -119,6 +119,9 @@ pub struct Acc {
     pub watchdog_stopped: bool,
     pub exhaustive_parts: BTreeSet<String>,
     pub per_workload: BTreeMap<String, u64>,
+    /// (workload, case) pairs a workload wants remembered as witnesses for an aggregate verdict
+    #[serde(default)]
+    pub flagged: Vec<(String, u64)>,
 }
 
 const FPS_CAP: usize = 400_000;
@@ -144,6 +147,11 @@ impl Acc {
     pub fn sample(&mut self, v: impl FnOnce() -> Value) {
         if self.samples.len() < 2 {
             self.samples.push(v());
+        }
+    }
+    pub fn flag(&mut self, workload: &str, case: u64) {
+        if self.flagged.len() < 20 {
+            self.flagged.push((workload.to_string(), case));
         }
     }
     pub fn note(&mut self, s: &str) {
@@ -180,6 +188,11 @@ impl Acc {
         self.exhaustive_parts.extend(o.exhaustive_parts);
         for (k, v) in o.per_workload {
             *self.per_workload.entry(k).or_default() += v;
+        }
+        for f in o.flagged {
+            if self.flagged.len() < 20 {
+                self.flagged.push(f);
+            }
         }
     }
 }
@@ -221,6 +234,9 @@ pub struct Check {
     pub required: &'static [&'static str],
     pub workloads: Vec<Workload>,
     pub exhaustive: bool,
+    /// verdict over the merged observations of the whole run (rates); the violation names one flagged case as
+    /// its replayable witness
+    pub aggregate: Option<fn(&Acc) -> Option<V>>,
 }
 
 fn cases_for(w: &Workload, tier: Tier) -> u64 {
@@ -521,6 +537,25 @@ pub fn run_parent(check: &Check, tier: Tier) -> i32 {
         }
     }
 
+    // verdict over the whole run (rates)
+    if let Some(agg) = check.aggregate {
+        if let Some(v) = agg(&acc) {
+            acc.flagged.sort();
+            let (workload, case) = acc.flagged.first().cloned().unwrap_or(("aggregate".into(), 0));
+            acc.viols.push(Viol {
+                property: check.id.to_string(),
+                sig: v.rule.clone(),
+                rule: v.rule,
+                msg: v.msg,
+                workload,
+                case,
+                seed,
+                tier: tier.name().into(),
+                flavour: "checked".into(),
+                trace: acc.notes.iter().cloned().collect(),
+            });
+        }
+    }
     // verdicts
     let known = known_findings();
     let mut new_viols: Vec<&Viol> = vec![];
